@@ -19,5 +19,5 @@ CFG = dict(
     assumptions=["payload/filter codec round trips are hypotheses of the theorems (C01/C16, C11)",
                  "LZIPReaderMT (member scan) is not covered by this check",
                  "the theorems are about the whole-file reader function; agreement with the call-by-call model is checked by the correspondence run",
-                 "/repo carries the fix patches repo-patches/41..49; on the historical code C12 is false (C12_xz_concat_refuted)"],
+                 "/repo carries the fix patches /repo 90fabde..49; on the historical code C12 is false (C12_xz_concat_refuted)"],
 )
